@@ -3,6 +3,7 @@ package main
 import (
 	"fmt"
 	"io"
+	"math"
 	"math/rand"
 	"net/http"
 	"net/http/httptest"
@@ -81,8 +82,12 @@ func newBreakerSubject(cfg M, next http.Handler) *breakerSubject {
 		}
 		onTripped = wh
 	}
+	fbDur := time.Duration(num(cfg, "fallback")) * s.tick
+	if boolOr(cfg, "fallback_forever", false) {
+		fbDur = time.Duration(math.MaxInt64) // the "never recover by itself" idiom
+	}
 	cb, err := cbreaker.New(next, str(cfg, "expr"),
-		cbreaker.FallbackDuration(time.Duration(num(cfg, "fallback"))*s.tick),
+		cbreaker.FallbackDuration(fbDur),
 		cbreaker.RecoveryDuration(time.Duration(num(cfg, "recovery"))*s.tick),
 		cbreaker.CheckPeriod(time.Duration(num(cfg, "check"))*s.tick),
 		cbreaker.Fallback(fbh), cbreaker.OnTripped(onTripped), cbreaker.OnStandby(&s.onStandby))
